@@ -375,9 +375,14 @@ class TrajectoryCalc:
         # user's own -W / simplefilter choice from then on; the default action already reports a warning raised
         # repeatedly from one place in the loop only once)
         it = 0  # iteration counter
-        while range_vector.x <= maximum_range + min_step:
+        # The first point at or beyond maximum_range has to be offered to the recording filter too (the row at the
+        # requested range is interpolated from it), even when one step carried it past maximum_range + min_step:
+        # a tail wind, or a record step smaller than the integration step
+        offered_x = range_vector.x  # down-range distance of the last point offered to the recording filter
+        while range_vector.x <= maximum_range + min_step or (filter_flags and offered_x < maximum_range):
             it += 1
             data_filter.clear_current_flag()
+            offered_x = range_vector.x
 
             # Update wind reading at current point in trajectory
             if range_vector.x >= wind_sock.next_range:  # require check before call to improve performance
